@@ -27,9 +27,15 @@ def plaintext(length):
     return bytes((i * 13 + 65) & 0xFF for i in range(length))
 
 
+VARIANT = 'base'
+
+
 def plain_bundle(length, with_ext):
     pri = dict(flags=B.FLAG_REQ_DELETION | B.FLAG_REQ_DELIVERY, crc_type=0, dest='dtn://node/app', src=SRC + 'app',
                report_to='dtn://rpt/', ts=CREATION, lifetime=86400000)
+    if VARIANT == 'no-reports':
+        # nobody is to be told: no report requests, report-to is the null endpoint
+        pri.update(flags=0, report_to='dtn:none')
     blocks = []
     if with_ext:
         blocks.append(dict(type=195, num=2, flags=0, crc_type=0, data=b'secret-extension-data'))
@@ -243,6 +249,8 @@ def run_case(params, known):
     _env.load_bp()
     name = params['name']
     (kind, length, with_ext) = (params['kind'], params['length'], params['with_ext'])
+    global VARIANT
+    VARIANT = params.get('variant', 'base')
     right = 'right-kw' if kind == 'enc-kw' else 'right'
     violations = []
     kinds = set()
@@ -316,7 +324,8 @@ def run_case(params, known):
         counts['wrong-key'] = counts.get('wrong-key', 0) + 1
         if delivered:
             viol('delivered-without-the-key', dict(keymode=keymode), repr(delivered[0]['blocks'])[:200], data, 'none')
-        elif not any(r in SEC_REASONS for r in reasons) and not world.api_errors:
+        elif not any(r in SEC_REASONS for r in reasons) and not world.api_errors \
+                and orig['primary']['flags'] & B.FLAG_REQ_DELETION and orig['primary']['report_to'] != 'dtn:none':
             viol('security-failure-not-reported', dict(keymode=keymode), 'reasons %r' % (reasons,), data, 'none')
     # (3) alterations
     if params.get('flips', True):
@@ -343,6 +352,12 @@ def run_case(params, known):
                 elif not rejected_in_decode and altdec['primary']['flags'] & B.FLAG_REQ_DELETION \
                         and altdec['primary']['report_to'] != 'dtn:none' and not any(r in SEC_REASONS for r in reasons):
                     viol('security-failure-not-reported', dict(), '%s: reasons %r' % (what, reasons), alt, what)
+            elif verdict == 'undecodable' and what.startswith('bit ') and delivered and leaked \
+                    and orig['primary']['span'][0] * 8 <= int(what[4:]) < orig['primary']['span'][1] * 8:
+                # one bit of the primary block changed into something that is no RFC 9171 bundle any more (an endpoint ID
+                # the scheme does not allow, say): whatever the receiver makes of it, the primary block is not the one
+                # that was bound in - and the plaintext came out
+                viol('plaintext-released-after-alteration', dict(primary_block='no longer RFC 9171'), what, alt, what)
             elif verdict == 'must-verify':
                 keys.add('%s:%s' % (name, what))
                 if not delivered and not rejected_in_decode:
@@ -626,6 +641,9 @@ def scenarios(tier):
                 out.append(dict(name=name, kind='enum', runner='run_case',
                                 params=dict(name=name, kind=kind, length=length, with_ext=with_ext, flips=flips),
                                 weight=(length + 150) if flips else 1))
+    # a bundle that asks for no reports (report-to is dtn:none), every bit
+    out.append(dict(name='enc0-len16-no-reports', kind='enum', runner='run_case',
+                    params=dict(name='enc0-len16-no-reports', kind='enc0', length=16, with_ext=False, flips=True, variant='no-reports'), weight=170))
     return out
 
 
